@@ -153,7 +153,11 @@ func (fx *FuncCtx) witnessCands(st *State, extra []Term) []Term {
 				}
 				fx.discard++
 				defer func() { fx.discard-- }()
-				t := fx.specTerm(&specEnv{fx: fx, cur: st, old: fx.entry, binds: map[string]sval{}, pos: pos}, w.Expr)
+				wenv := &specEnv{fx: fx, cur: st, old: fx.entry, binds: map[string]sval{}, pos: pos}
+				if n := len(fx.loops); n > 0 {
+					wenv.it = &fx.loops[n-1].it
+				}
+				t := fx.specTerm(wenv, w.Expr)
 				add(t)
 			}()
 		}
@@ -235,8 +239,8 @@ func (fx *FuncCtx) memberGoal(st *State, fams []famInst, rid, addr Term, extra [
 		if len(f.vars) == 1 {
 			// sums and differences of pairs (inner counters offset by outer ones)
 			base := cands
-			if len(base) > 6 {
-				base = base[:6]
+			if len(base) > 11 {
+				base = base[:11]
 			}
 			for _, a := range base {
 				for _, b := range base {
@@ -252,7 +256,7 @@ func (fx *FuncCtx) memberGoal(st *State, fams []famInst, rid, addr Term, extra [
 			inr, idx := f.at(ws)
 			alts = append(alts, And(same, inr, Eq(rel, idx)))
 		}
-		for _, ws := range tuples(cands, len(f.vars), 260) {
+		for _, ws := range tuples(cands, len(f.vars), 400) {
 			inr, idx := f.at(ws)
 			alts = append(alts, And(same, inr, Eq(rel, idx)))
 		}
